@@ -7,6 +7,7 @@ package ha
 
 import (
 	"net/http"
+	"sync/atomic"
 	"time"
 )
 
@@ -114,3 +115,15 @@ func (c *FailoverController) DeadlinesForVerif() (failover, failback time.Time) 
 
 // EvaluateStateForVerif runs one iteration of the control loop's periodic evaluation.
 func (c *FailoverController) EvaluateStateForVerif() { c.evaluateState() }
+
+// BroadcastHeartbeatForVerif performs broadcastLoop's heartbeat-ticker case once.
+func (s *HASyncer) BroadcastHeartbeatForVerif() *SyncMessage {
+	msg := &SyncMessage{
+		Type:        SyncTypeHeartbeat,
+		Timestamp:   time.Now(),
+		SequenceNum: atomic.LoadUint64(&s.sequenceNum),
+		NodeID:      s.config.NodeID,
+	}
+	s.broadcastToClients(msg)
+	return msg
+}
